@@ -409,6 +409,89 @@ func (t *vC19) fusion(v, x map[uint32]float64) {
 	}
 }
 
+// fusionLong: like fusion but for maps without score ties (a single consistent ranking).
+func (t *vC19) fusionLong(v, x map[uint32]float64) {
+	mk := func(kind FusionKind, cfg *FusionConfig) Fusion { f, _ := NewFusion(kind, cfg); return f }
+	type fz struct {
+		name string
+		f    Fusion
+		kind int
+	}
+	for _, f := range []fz{{"ws(.3,.7)", mk(WeightedSumFusion, &FusionConfig{VectorWeight: 0.3, TextWeight: 0.7, K: 60}), 0}, {"rrf(60)", mk(ReciprocalRankFusion, &FusionConfig{VectorWeight: 1, TextWeight: 1, K: 60}), 1}, {"max", mk(MaxFusion, nil), 2}, {"min", mk(MinFusion, nil), 3}} {
+		t.c.Evaluations++
+		got := f.f.Combine(v, x)
+		var accept []map[uint32]float64
+		switch f.kind {
+		case 0:
+			m := map[uint32]float64{}
+			for id, w := range v {
+				m[id] = 0.3 * w
+			}
+			for id, w := range x {
+				m[id] += 0.7 * w
+			}
+			accept = append(accept, m)
+		case 1:
+			rank := func(mm map[uint32]float64, asc bool) map[uint32]int {
+				ids := make([]uint32, 0, len(mm))
+				for id := range mm {
+					ids = append(ids, id)
+				}
+				sort.Slice(ids, func(i, j int) bool {
+					if asc {
+						return mm[ids[i]] < mm[ids[j]]
+					}
+					return mm[ids[i]] > mm[ids[j]]
+				})
+				r := map[uint32]int{}
+				for i, id := range ids {
+					r[id] = i
+				}
+				return r
+			}
+			for origin := 0; origin <= 1; origin++ {
+				m := map[uint32]float64{}
+				for id, r := range rank(v, true) {
+					m[id] += 1 / (60 + float64(r+origin))
+				}
+				for id, r := range rank(x, false) {
+					m[id] += 1 / (60 + float64(r+origin))
+				}
+				accept = append(accept, m)
+			}
+		case 2:
+			m := map[uint32]float64{}
+			for id, w := range v {
+				m[id] = w
+			}
+			for id, w := range x {
+				if o, ok := m[id]; !ok || w > o {
+					m[id] = w
+				}
+			}
+			accept = append(accept, m)
+		case 3:
+			m := map[uint32]float64{}
+			for id, w := range v {
+				if o, ok := x[id]; ok {
+					m[id] = math.Min(w, o)
+				}
+			}
+			accept = append(accept, m)
+		}
+		ok := false
+		for _, m := range accept {
+			if vMapEq(got, m) {
+				ok = true
+			}
+		}
+		if !ok {
+			t.bad("fusion-value", f.name+":long", fmt.Sprintf("%d + %d ids: result has %d ids", len(v), len(x), len(got)))
+		}
+		t.c.Nontrivial(fmt.Sprintf("fuselong|%s|%d", f.name, len(v)))
+	}
+}
+
 func (t *vC19) merge(list []vRS) {
 	t.c.Evaluations++
 	in := make([]HybridSearchResult, len(list))
@@ -513,6 +596,66 @@ func init() {
 					}
 				}
 				c.Sample("ids 1..48 once each, then ids 1,2,25,48 twice more; reversed and rotated")
+				c.Bound = "n in 1..130, 200, 257, 300, 513"
+			}})
+			// long inputs for limit / autocut / merge / fusion: every n in 1..130 (+ a few larger)
+			sh = append(sh, vShard{Name: "long-inputs", Run: func(c *vCtx) {
+				t := &vC19{c: c, cfgS: "long-inputs"}
+				var ns []int
+				for n := 1; n <= 130; n++ {
+					ns = append(ns, n)
+				}
+				ns = append(ns, 200, 257, 300, 513)
+				for _, n := range ns {
+					// score shapes: constant, linear, one gap at every tenth position, two plateaus
+					shapes := [][]float32{make([]float32, n), make([]float32, n), make([]float32, n)}
+					for i := 0; i < n; i++ {
+						shapes[0][i] = 1
+						shapes[1][i] = float32(i) * 0.5
+						shapes[2][i] = float32(i / (n/2 + 1) * 10)
+					}
+					for g := 0; g < n; g += 10 {
+						sh := make([]float32, n)
+						for i := range sh {
+							sh[i] = float32(i) * 0.01
+							if i > g {
+								sh[i] += 5
+							}
+						}
+						shapes = append(shapes, sh)
+					}
+					for _, sc := range shapes {
+						t.autocut(sc)
+						l := make([]vRS, n)
+						for i := range l {
+							l[i] = vRS{uint32(i%((n+1)/2) + 1), sc[i]} // every id (about) twice
+						}
+						t.merge(l)
+						in := make([]TextResult, n)
+						for i, x := range l {
+							in[i] = TextResult{Id: x.id, Score: x.sc}
+						}
+						for _, k := range []int{-1, 0, 1, n - 1, n, n + 1} {
+							c.Evaluations++
+							got := LimitResults(in, k)
+							want := n
+							if k > 0 && k < n {
+								want = k
+							}
+							if len(got) != want || (want > 0 && (got[0] != in[0] || got[want-1] != in[want-1])) {
+								t.bad("limit", "long", fmt.Sprintf("n=%d k=%d -> %d", n, k, len(got)))
+							}
+						}
+					}
+					// fusion with n ids in each modality, overlapping in the middle third
+					v, x := map[uint32]float64{}, map[uint32]float64{}
+					for i := 0; i < n; i++ {
+						v[uint32(i+1)] = float64(i) * 0.25
+						x[uint32(i+1+n/3)] = float64(n-i) * 0.5
+					}
+					t.fusionLong(v, x)
+				}
+				c.Sample("n in 1..130, 200, 257, 300, 513: constant / linear / plateau / gap-at-g score shapes; fusion of two n-id maps overlapping in n/3..n")
 				c.Bound = "n in 1..130, 200, 257, 300, 513"
 			}})
 			sh = append(sh, vShard{Name: "autocut", Run: func(c *vCtx) {
